@@ -121,6 +121,10 @@ Sim(v, w, L) ==
     ELSE /\ v.t = w.t
          /\ CASE v.t \in ScalarTypes  -> v.s = w.s /\ v.n = w.n
               [] v.t \in SetTypes     -> sub(v.a, w.a) /\ sub(w.a, v.a)
+              [] v.t = "Counter"      ->    \* Counter.__eq__ treats a missing element as a count of zero (Python >= 3.10);
+                                            \* as argument values Counter(a=0) and Counter() differ (len, iteration)
+                    LET nz(p) == SelectSeq(p, LAMBDA pr : ~(L /\ pr.a[2].n = 0))
+                    IN  sub(nz(v.a), nz(w.a)) /\ sub(nz(w.a), nz(v.a))
               [] v.t \in MappingTypes -> (L \/ v.s = w.s) /\ sub(v.a, w.a) /\ sub(w.a, v.a)
               [] v.t = "Deque"        -> (L \/ v.n = w.n) /\ same(v.a, w.a)
               [] v.t = "PyArray"      -> (L \/ v.s = w.s) /\ same(v.a, w.a)
